@@ -25,9 +25,10 @@ N_JOIN = 3
 
 
 def make_source(seed: int, variant: int) -> tuple[str, list]:
-    """A large-ish program: N_JOIN corpus programs concatenated, then a comment-heavy layout variant."""
+    """A large-ish program: N_JOIN corpus programs concatenated, then a comment-heavy layout variant (shared mutators)
+    and, for 3 of 5 sources, the C04 comment / blank-line structures of harness/c04_layouts.py."""
     from corpus.programs import PROGRAMS
-    from harness import layouts
+    from harness import layouts, c04_layouts
     rng = random.Random(seed * 7919 + 11)
     for _ in range(8):
         ps = [rng.randrange(len(PROGRAMS)) for _ in range(N_JOIN)]
@@ -36,8 +37,13 @@ def make_source(seed: int, variant: int) -> tuple[str, list]:
             compile(src, '<c04>', 'exec', flags=0x400, dont_inherit=True)  # PyCF_ONLY_AST: must parse as one module
         except SyntaxError:
             continue
-        return layouts.variant(src, variant, seed), ps
-    return layouts.variant(PROGRAMS[ps[0]], variant, seed), ps[:1]
+        break
+    else:
+        src, ps = PROGRAMS[ps[0]], ps[:1]
+    src = layouts.variant(src, variant, seed)
+    if seed % 5 < 3:  # comment blocks separated by empty lines, trailing comment lines, comments inside brackets
+        src = c04_layouts.inject(src, seed)
+    return src, ps
 
 
 def _shard(args):
@@ -154,11 +160,13 @@ def run(ctx):
               required=('DoDelete', 'DoReplace', 'DoInsert', 'DropFarComment', 'DropNearComment', 'DupComment',
                         'DropLineComment', 'ReindentFarLine', 'SwapFarStatements', 'DropFarBlank', 'DropNearBlank',
                         'GlueComment'), heap='3g'))
-    n_hist, n_steps = (300, 8) if ctx.quick else (3600, 10)
+    n_hist, n_steps = (420, 8) if ctx.quick else (5600, 10)
     specs = history_specs(ctx, n_hist, n_steps)
-    res = generate(specs)
-    val = validate_all(ctx, res)
-    collect(ctx, val)
+    wave = 560  # histories generated and validated together (bounds memory in the thorough tier)
+    for k in range(0, len(specs), wave):
+        collect(ctx, validate_all(ctx, generate(specs[k:k + wave])))
+    ctx.extra['histories'] = n_hist
+    ctx.extra['steps_per_history'] = n_steps
     ctx.require_clauses(['OutsideTokens.out', 'OutsideTokens.in', 'Comments.lost', 'Comments.dup', 'OutsideLines',
                          'BlankLines'])
 
